@@ -96,7 +96,7 @@ func startTagLines(src, tag string, occurrence int) (int, int) {
 }
 
 func runC17(res *Result, tier string, seed int64, replay string) {
-	res.Rule = "(1) EXHAUSTIVE matrix: every body component in a legal context × every attribute name from the union of all known names + invented ones (bogus, data-x, aria-y, class, css-class, mj-class, empty-looking names): error reported ⇔ the Spec (JSON table + always-accepted names) rejects, exactly one detail for the offending (tag, attribute), nothing else; HTML equal to the HTML of the same document without the attribute when the attribute is invalid. (2) seeded grammar documents with 1–4 invalid attributes injected at random elements, multi-line start tags, three layouts (one element per line, the whole document on one line, the first elements on the line of the root), void HTML tags inside mj-text written over several lines, documents preceded by comments and blank lines, also mixed with material that is kept (XML declaration, doctype, byte-order mark) in every order: every reported line must lie within the lines of that element's start tag in the ORIGINAL input; details = injected set. (3) line lookup: real lineLookup (verif export) vs 1 + count of newlines, offsets queried in random order. Non-trivial = cell or document with an offending attribute; distinct by cell / source"
+	res.Rule = "(1) EXHAUSTIVE matrix: every body component in a legal context × every attribute name from the union of all known names + invented ones (bogus, data-x, aria-y, class, css-class, mj-class, empty-looking names): error reported ⇔ the Spec (JSON table + always-accepted names) rejects, exactly one detail for the offending (tag, attribute), nothing else; HTML equal to the HTML of the same document without the attribute when the attribute is invalid. (2) seeded grammar documents with 1–4 invalid attributes injected at random elements, multi-line start tags, three layouts (one element per line, the whole document on one line, the first elements on the line of the root), void HTML tags inside mj-text written over several lines, documents preceded by comments and blank lines, also mixed with material that is kept (XML declaration, doctype, byte-order mark) in every order: every reported line must lie within the lines of that element's start tag in the ORIGINAL input; details = injected set. end tags written over several lines; (3) line lookup: real lineLookup (verif export) vs 1 + count of newlines, offsets queried in random order; (4) the three textual pre-passes and their composition byte for byte against the Lean Models (driver `strip` `amp` `ent` `wrap` `pre`) on the documents of (2) and on texts made of the pieces wrapMJTextContent and its void-tag pattern look at. Non-trivial = cell or document with an offending attribute; distinct by cell / source"
 	// ---- (1) matrix
 	names := map[string]bool{}
 	for _, t := range bodyTags {
@@ -183,6 +183,7 @@ func runC17(res *Result, tier string, seed int64, replay string) {
 		}
 		n = 0
 	}
+	var passTexts []string
 	for i := 0; i < n+len(srcs); i++ {
 		var src string
 		var injected []detail
@@ -238,6 +239,31 @@ func runC17(res *Result, tier string, seed int64, replay string) {
 				body = strings.Replace(body, "<br/>", "<br"+nl+"/>", -1)
 				body = strings.Replace(body, "</mj-text>", `<img src="i.png"`+nl+`   alt="a"`+nl+`/><hr`+nl+nl+`/></mj-text>`, 1+r.Intn(2))
 			}
+			// end tags written over several lines (XML allows white space between the name and '>'): of components, of ending
+			// mj-text elements (rewritten by the textual pre-pass) and of author HTML inside content
+			if r.Bool(1, 2) {
+				var sb strings.Builder
+				rest := body
+				for {
+					at := strings.Index(rest, "</")
+					if at < 0 {
+						break
+					}
+					gt := strings.Index(rest[at:], ">")
+					if gt < 0 {
+						break
+					}
+					sb.WriteString(rest[:at+gt])
+					if r.Bool(1, 3) {
+						sb.WriteString(r.Pick([]string{nl, nl + nl + "  ", " ", nl + "\t" + nl}))
+						res.Count("end-tag-over-several-lines")
+					}
+					sb.WriteString(">")
+					rest = rest[at+gt+1:]
+				}
+				sb.WriteString(rest)
+				body = sb.String()
+			}
 			pre := r.Pick([]string{"", "", "<!-- leading comment -->\n", "\n\n\n", "<!-- a -->\n<!-- b\n c -->\n\n", "  \n<!-- x -->", "<?xml version=\"1.0\"?>\n",
 				// material that stays (XML declaration, doctype, byte-order mark) in front of, between and behind material that is
 				// stripped (comments over several lines, blank lines): the stripped lines are not a prefix of the input
@@ -260,6 +286,9 @@ func runC17(res *Result, tier string, seed int64, replay string) {
 		h, err := renderPlain(src)
 		ds, isVal := detailsOf(err)
 		res.Case(src, len(injected) > 0)
+		if i < n && i%2 == 0 {
+			passTexts = append(passTexts, src)
+		}
 		// the same document behind three more blank lines, both compiled through the cache: every line must move by three
 		if i < n && len(injected) > 0 && i%3 == 0 {
 			var e1, e2 error
@@ -335,6 +364,20 @@ func runC17(res *Result, tier string, seed int64, replay string) {
 				res.Violate(Violation{Sig: "line-not-on-start-tag", Kind: "input", What: fmt.Sprintf("<%s %s> reported on line %d, its start tag stands on lines %v", d.tag, d.attr, d.line, ranges), Input: in})
 				break
 			}
+		}
+	}
+	// ---- (4) the Models of the three textual pre-passes (the theorem C17_reported_line_is_input_line is about them) byte for
+	// byte against the real passes: the injected documents of (2) and texts made of what wrapMJTextContent looks at
+	if replay == "" {
+		if drv, err := startDriverPool(8); err != nil {
+			res.Disagree(Violation{Sig: "driver-missing", What: err.Error()})
+		} else {
+			nw := 1500
+			if tier == "thorough" {
+				nw = 20000
+			}
+			prepassCorrespondence(res, drv, append(passTexts, wrapTexts(seed, nw)...))
+			drv.Close()
 		}
 	}
 	// ---- (3) line lookup correspondence
